@@ -16,7 +16,8 @@ run_one() { # <diff> <ID> <expected exit> <name>
   n=$((n+1))
 }
 for d in seeded/*/; do
-  id=$(sed -n 's/.*"breaks_property": *"\([^"]*\)".*/\1/p' "$d/meta.json" | head -1)
+  id=$(sed -n 's/.*"regress_with": *"\([^"]*\)".*/\1/p' "$d/meta.json" | head -1)
+  [ -n "$id" ] || id=$(sed -n 's/.*"breaks_property": *"\([^"]*\)".*/\1/p' "$d/meta.json" | head -1)
   [ -n "$id" ] && run_one "$PWD/$d/patch.diff" "$id" 1 "$(basename $d)"
 done
 for f in sensitivity/*.diff; do
